@@ -19,10 +19,10 @@ META = dict(
           'the proof took >= 2 steps; schedules = distinct step-history signatures observed per argument.'),
     assumptions=['tie-break orders are enumerated through the PYTABLEAUX_VERIF hook (Node/Branch hash = permuted creation serial)',
                  'monitoring cap of 300/600 steps: capped runs have no verdict and are excluded (counted)'],
-    min_events={'quick': {'arguments_compared': 1500, 'runs': 20000, 'logics': 57, 'distinct_signatures': 3000},
-                'thorough': {'arguments_compared': 15000, 'runs': 400000, 'logics': 57}},
-    budget=dict(quick=420, thorough=3000),
-    unit_timeout=dict(quick=330, thorough=2400),
+    min_events={'quick': {'arguments_compared': 1500, 'runs': 20000, 'logics': 52, 'distinct_signatures': 3000},
+                'thorough': {'arguments_compared': 15000, 'runs': 400000, 'logics': 52}},
+    budget=dict(quick=1500, thorough=3000),
+    unit_timeout=dict(quick=900, thorough=3000),
 )
 
 NARGS = dict(quick=22, thorough=420)
